@@ -169,6 +169,8 @@ def _arg(a):
         return OperationMode(a["opmode"])
     if isinstance(a, dict) and "dt" in a:
         return datetime.datetime(*a["dt"])
+    if isinstance(a, dict) and "frac" in a:
+        return a["frac"][0] / a["frac"][1]
     return a
 
 
